@@ -38,6 +38,16 @@ def run(res, tier, rng, table_diffs=()):
     srcs += gen2.width_boundary_programs()
     srcs += [("iife", p) for p in gen2.iife_programs()]
     srcs += [("tail-shapes", p) for p in gen2.tail_shape_programs()]
+    # TYPE CONFUSION: a function value is the one kind of value `Call` trusts (entry offset, locals count). Arithmetic, comparison,
+    # indexing or a builtin applied to a function value must never produce another function value: every result is then CALLED
+    for k in ["1", "65536", "262144", "1114112", "0 - 1", "0 - 65536", "3", "f", "g", "1.5", "ja", "\"s\"", "[1]"]:
+        for op in ["+", "-", "*", "/", "%"]:
+            srcs.append(("type-confusion", "stel f = functie() { 1 }; stel g = functie(a, b) { als ja { antwoord 2 }; 3 }; stel h = f %s %s; h()" % (op, k)))
+            srcs.append(("type-confusion", "stel f = functie() { 1 }; stel g = functie(a, b) { 2 }; stel h = %s %s g; h(1, 2)" % (k, op)))
+            srcs.append(("type-confusion", "functie f() { 1 }; functie w(x) { stel y = x %s 65536; y() }; functie v(x) { stel y = 65536 %s x; y() }; [w(f), v(f)]" % (op, op)))
+        srcs.append(("type-confusion", "stel f = functie() { 1 }; f += %s; f()" % k))
+    for e in ["[f][0]()", "[f, 1][1]()", "string(f)()", "bool(f)()", "int(f)()", "(f == f)()", "(-f)()", "(!f)()", "f[0]()", "type(f)()", "[[f]][0][0]()"]:
+        srcs.append(("type-confusion", "stel f = functie() { 1 }; %s" % e))
     for _ in range(500 if tier == "quick" else 10000):
         srcs.append(("nested-fn", gen2.nested_fn_program(rng.fork())))
     for _ in range(200 if tier == "quick" else 4000):
